@@ -400,3 +400,19 @@ Proof. intros Hn Ok D. unfold gate_ok in Ok. unfold dist in D. unfold fits, sub.
 Theorem checker_terminates prefs nq o a b : 2 <= nq -> (forall g, In g a \/ In g b -> gate_ok nq g) ->
   iterate_with prefs (length a + length b) (sweep_of nq o) (init a b) <> None.
 Proof. intros Hn Ok. apply iterate_terminates; [unfold mu, init; cbn; lia|]. intros g Hg D. apply sweep_of_covers; auto. Qed.
+
+(* the pairs treated inside a long-range step cover every site of the gate's range, so every tensor of the gate MPO is merged in *)
+Theorem lr_pairs_cover lo d k : 2 <= d -> k < d -> exists n, In n (lr_pairs lo d) /\ (lo + k = n \/ lo + k = S n).
+Proof. intros Hd Hk. unfold lr_pairs. destruct (Nat.ltb_spec k (2 * (d / 2))) as [Lt|Ge].
+  - exists (lo + 2 * (k / 2)). split.
+    + apply in_app_iff. left. apply in_map_iff. exists (k / 2). split; [reflexivity|]. apply in_seq. split; [lia|].
+      cbn [Nat.add]. apply Nat.div_lt_upper_bound; lia.
+    + pose proof (Nat.div_mod_eq k 2). pose proof (Nat.mod_upper_bound k 2 ltac:(lia)). lia.
+  - pose proof (Nat.div_mod_eq d 2) as E. pose proof (Nat.mod_upper_bound d 2 ltac:(lia)) as B.
+    assert (O : Nat.odd d = true).
+    { rewrite <- Nat.negb_even. destruct (Nat.even d) eqn:Ev; [|reflexivity]. apply Nat.even_spec in Ev. destruct Ev as [m ->].
+      rewrite (Nat.mul_comm 2 m), Nat.div_mul in Ge by lia. lia. }
+    rewrite O. exists (lo + d - 2). split; [apply in_app_iff; right; left; reflexivity|].
+    assert (d mod 2 = 1). { destruct (Nat.even d) eqn:Ev; [rewrite <- Nat.negb_even, Ev in O; discriminate|]. pose proof (Nat.mod_upper_bound d 2). 
+      destruct (d mod 2) as [|[|x]] eqn:M; [|reflexivity|lia]. exfalso. assert (Nat.even d = true); [|congruence]. apply Nat.even_spec. exists (d / 2). lia. }
+    right. lia. Qed.
